@@ -96,6 +96,17 @@ class C08(Prop):
             mixed = rng.choice(['lt', 'tl'])
             yield Case('setop', ('complement', st, False, None, ta, tb), {'mixed': mixed})
             yield Case('setop', ('intersection', False, False, None, ta, tb), {'mixed': mixed})
+        # rows that differ but hash alike (-1 / -2, 0 / 2**61-1): the hash variants count rows, not hashes
+        for ra, rb in ((((-1, 'x'), (5, 'y')), ((-2, 'x'), (-2, 'x'), (5, 'y'))), (((0, 'x'),), ((2 ** 61 - 1, 'x'),)),
+                       (((-1, 'x'), (-2, 'x'), (-1, 'x')), ((-2, 'x'),)), (((-1.0, 'x'),), ((-2, 'x'), (-1, 'x')))):
+            ta = (('k', 'v'),) + ra
+            tb = (('k', 'v'),) + rb
+            for a, b in ((ta, tb), (tb, ta)):
+                for opn in ('complement', 'hashcomplement'):
+                    for strict in (False, True):
+                        yield Case('setop', (opn, strict, False, None, a, b))
+                for opn in ('intersection', 'hashintersection'):
+                    yield Case('setop', (opn, False, False, None, a, b))
         if tier == 'thorough':
             alpha = [(None, 0), (0, 'a'), (0, 0)]
             for na in range(0, 4):
